@@ -40,7 +40,9 @@ CHECKS = {
               "restore_bisim (after any successful event, dump+restore yields the very same instance except at the two hand-over states, hence identical "
               "behaviour on every later event), restore_consistent, pool_wellFormed. Tie: fsmdiff restores from the dump between every two events and, "
               "for every tree edge of the exhaustive exploration, compares continuing in memory with continuing after dump+restore on the real code; "
-              "JSON fidelity of the payload is exercised by that run (modelled, not verified). Props/C19Store.lean, the node's round store: saved_is_listed, "
+              "along every guided walk one object is kept in memory for the WHOLE walk (re-made from its dump only where the node does so by hand, at the two hand-over states) and must answer every event "
+              "like the round restored before that event (monitor C19 restored_answers_alike); JSON fidelity of the payload is exercised by that run (modelled, not verified). Props/C19Mem.lean over Gen/MachineFacts.lean (regenerated): "
+              "machine_objects_hold_state_and_payload (the three machine structs, the instance and the engine have exactly the fields the model's Instance stands for), no_package_state. Props/C19Store.lean, the node's round store: saved_is_listed, "
               "others_untouched, load_after_save, saved_round_loads (a round saved in ANY state name loads again, as itself and not as a fresh idle round), "
               "step_save_load; tie: every dump fsmdiff keeps goes through the real FSMService on a LevelDB state and is read back through GetFSMInstance "
               "(with and without creation), GetFSMDump, GetFSMList and IsExist (monitor C19 store_roundtrip)."),
